@@ -175,6 +175,9 @@ def run(ctx: Ctx) -> Outcome:
     events, meta, model, ntypes = collect(ctx, profile)
     tres, rejects = tlc.validate_trace("Wire_Trace", "Wire_Trace.cfg", events, timeout=7200)
     viol, notvalid = _violations(rejects, events, meta)
+    # implementation-shaped layer: marshal output vs the reference wire relation IsWireOf (spec/Wire.tla)
+    drifts = [p["drift"] for p in tres.printed if isinstance(p, dict) and "drift" in p]
+    drift = [{"T": events[i - 1]["T"], "value": meta[i - 1][1], "wire": events[i - 1]["w"]} for i in drifts[:20]]
     if notvalid > len(events) // 2:
         raise tlc.MachineryError(f"{notvalid} of {len(events)} generated values are not Exact instances of their type")
     strict = sum(1 for e in events if not e["amb"])
@@ -184,11 +187,12 @@ def run(ctx: Ctx) -> Outcome:
            "traces_validated_against_impl": len(events), "evaluations": len(events),
            "distinct_nontrivial": len(nontrivial), "types": ntypes, "strict_law_events": strict,
            "weak_law_only_events": len(events) - strict, "values_rejected_as_not_exact": notvalid,
+           "wire_form_checked_against_reference": strict, "wire_form_differs_from_reference": len(drifts),
            "rule": "every type of the TLC universe x up to 4 boundary-biased pool values: marshal, unmarshal, marshal again; TLC checks "
                    "Exact(T, v), then r = v as terms (strict) unless a union in T is ambiguous (earlier member takes a later member's "
                    "value on either side, decided with the real member routines), and w2 = w always; distinct by (type, value)",
            "samples": [events[len(events) // 4], events[len(events) // 2]]}
-    return Outcome(level="model_checking", coverage=cov, violations=viol,
+    return Outcome(level="model_checking", coverage=cov, violations=viol, impl_drift=drift,
                    assumptions=["ambiguity of a union is decided with the real member routines over the member pools; it only selects the law",
                                 "naive temporals, NaN/inf and non-default-flag patterns are outside U"])
 
